@@ -190,6 +190,7 @@ def case_numeric(case):
         AnalyticIntegrator(sol, {}, enable_caching=True).get_value(0.5)
     except BaseException as e:
         return {"construct_error": type(e).__name__ + ": " + str(e)[:200], "options": indict.get("options")}
+    snapshot = json.dumps(sol, sort_keys=True, default=str)
     ai = AnalyticIntegrator(sol, {k: list(v) for k, v in h["spike_times"].items()}, enable_caching=h["enable_caching"])
     ai2 = AnalyticIntegrator(sol, {k: list(v) for k, v in h["spike_times"].items()}, enable_caching=not h["enable_caching"])
     for op in h["ops"]:
@@ -206,6 +207,23 @@ def case_numeric(case):
             ai.disable_cache_update()
         else:
             ai.reset()
+    # constructing and querying integrators must leave the caller's solver dictionary as it was ...
+    out["dict_unmodified"] = (json.dumps(sol, sort_keys=True, default=str) == snapshot)
+    # ... and a later integrator built from a merge of it that carries OTHER parameter values (a parameter sweep) must use those
+    if sol.get("parameters") and indict.get("parameters"):
+        scale = case.get("sweep_scale", 2.0)
+        p2 = {k: repr(float(sympy.N(sympy.sympify(v))) * scale) for k, v in indict["parameters"].items()}
+        sol_b = {**sol, "parameters": {k: p2.get(k, v) for k, v in sol["parameters"].items()}}
+        ind_b = dict(indict, parameters=p2)
+        ref_b = refsol.Reference(ind_b, marker=marker)
+        ai_b = AnalyticIntegrator(sol_b, {k: list(v) for k, v in h["spike_times"].items()}, enable_caching=True)
+        tq = [op[1] for op in h["ops"] if op[0] == "get"][:3] or [0.5]
+        sweep = []
+        for tv in tq:
+            g_ = ai_b.get_value(tv)
+            w_ = ref_b.solve(h["spike_times"], tv)
+            sweep.append({"t": tv, "got": {k: float(g_[k]) for k in svars}, "want": {k: float(w_[k]) for k in svars}})
+        out["sweep"] = {"scale": scale, "queries": sweep}
     return out
 
 
@@ -288,6 +306,16 @@ def run(ctx, driver):
             continue
         ctx.count("numeric_cases")
         ctx.count("dict_order:" + case.get("dict_order", "asis"))
+        if res.get("dict_unmodified") is False:
+            ctx.fail("solver-dictionary-modified-by-integrator", case, {"signature": {"site": "AnalyticIntegrator", "what": "caller's dictionary"}})
+        if res.get("sweep"):
+            ctx.count("parameter_sweep_checked")
+            for q in res["sweep"]["queries"]:
+                badk = [k for k in res["vars"] if abs(q["want"][k] - q["got"][k]) > 1e-9 * max(1.0, abs(q["want"][k]))]
+                if badk:
+                    ctx.fail("later-integrator-ignores-its-parameters", case, {"t": q["t"], "variable": badk[0], "expected": q["want"][badk[0]], "observed": q["got"][badk[0]],
+                                                                               "parameters_scaled_by": res["sweep"]["scale"], "signature": {"site": "AnalyticIntegrator parameters"}})
+                    break
         ctx.note_nontrivial(json.dumps(case, sort_keys=True))
         for q in res["queries"]:
             ctx.count("numeric_queries")
